@@ -421,8 +421,8 @@ M('c04-snap-late', 'C04', SUBC, "    initial_circuit: Circuit = copy.deepcopy(ci
   "    subcircuits: list[_Subcircuit] = _get_subcircuits(\n        circuit, cuts, cut_nodes, max_subcircuit_size, cut_size\n    )\n    circuit.order_outputs([])\n    initial_circuit: Circuit = copy.deepcopy(circuit)\n    subcircuits = _eval_dont_cares(circuit, subcircuits)", 'C04.SNAP')
 M('c04-snap-shallow', 'C04', SUBC, "    initial_circuit: Circuit = copy.deepcopy(circuit)", "    initial_circuit: Circuit = circuit", 'C04.SNAP')
 M('c04-validation-inverted', 'C04', SUBC, "        if is_circuit_satisfiable(miter_circuit).answer:\n            raise FailedValidationError()", "        if not is_circuit_satisfiable(miter_circuit).answer:\n            raise FailedValidationError()", 'C04.SNAP')
-M('c04-size-same', 'C04', SUBC, "                TruthTableModel(outputs_tt),\n                size - 1,", "                TruthTableModel(outputs_tt),\n                size,", 'C04.SIZE')
-M('c04-size-basis', 'C04', SUBC, "                size - 1,\n                basis=_basis,", "                size - 1,", 'C04.SIZE')
+M('c04-size-same', 'C04', SUBC, "                TruthTableModel(outputs_tt),\n                size - 1,", "                TruthTableModel(outputs_tt),\n                size,", None)
+M('c04-size-basis', 'C04', SUBC, "                size - 1,\n                basis=_basis,", "                size - 1,", 'C04.')
 M('c04-size-all-outputs', 'C04', SUBC, "            if subcircuit.outputs[i] in filtered_outputs\n        ]", "            if subcircuit.outputs[i] in subcircuit.outputs\n        ]", 'C04.SIZE')
 M('c04-twin-rename', 'C04', SUBC, "    initial_circuit: Circuit = copy.deepcopy(circuit)", "    initial_circuit = copy.deepcopy(circuit)", None)
 
